@@ -26,6 +26,7 @@ const (
 	Minute      = rt.Minute
 	Hour        = rt.Hour
 
+	Layout      = rt.Layout
 	RFC3339     = rt.RFC3339
 	RFC3339Nano = rt.RFC3339Nano
 	RFC1123     = rt.RFC1123
@@ -50,16 +51,16 @@ func Now() Time {
 func Since(t Time) Duration { return Now().Sub(t) }
 func Until(t Time) Duration { return t.Sub(Now()) }
 
-func Unix(sec, nsec int64) Time                           { return rt.Unix(sec, nsec) }
-func UnixMilli(ms int64) Time                             { return rt.UnixMilli(ms) }
-func UnixMicro(us int64) Time                             { return rt.UnixMicro(us) }
+func Unix(sec, nsec int64) Time { return rt.Unix(sec, nsec) }
+func UnixMilli(ms int64) Time   { return rt.UnixMilli(ms) }
+func UnixMicro(us int64) Time   { return rt.UnixMicro(us) }
 func Date(y int, m Month, d, h, mi, s, ns int, l *Location) Time {
 	return rt.Date(y, m, d, h, mi, s, ns, l)
 }
-func ParseDuration(s string) (Duration, error)  { return rt.ParseDuration(s) }
-func Parse(layout, value string) (Time, error)  { return rt.Parse(layout, value) }
+func ParseDuration(s string) (Duration, error)    { return rt.ParseDuration(s) }
+func Parse(layout, value string) (Time, error)    { return rt.Parse(layout, value) }
 func LoadLocation(name string) (*Location, error) { return rt.LoadLocation(name) }
-func FixedZone(name string, off int) *Location  { return rt.FixedZone(name, off) }
+func FixedZone(name string, off int) *Location    { return rt.FixedZone(name, off) }
 
 func Sleep(d Duration) {
 	if simrt.Sleep(int64(d)) {
